@@ -164,7 +164,7 @@ pub fn emit_b_module(id: usize, l: &Layout, o: &EmitOpts, consts: Option<&str>) 
     }
     writeln!(s, "pub(crate) struct A(pub(crate) S);").unwrap();
     writeln!(s, "impl Obj for A {{").unwrap();
-    writeln!(s, "    fn raw(&self) -> u128 {{ {} }}", from_base(l.base_bits, "self.0.raw_value()")).unwrap();
+    writeln!(s, "    fn raw(&self) -> u128 {{ let r: u{} = self.0.raw_value(); {} }}", l.base_bits, from_base(l.base_bits, "r")).unwrap();
     // get
     writeln!(s, "    fn get(&self, f: usize, i: usize) -> Val {{ match f {{").unwrap();
     if o.getters {
@@ -173,7 +173,9 @@ pub fn emit_b_module(id: usize, l: &Layout, o: &EmitOpts, consts: Option<&str>) 
                 continue;
             }
             let call = if f.is_array() { format!("self.0.{}(i)", f.name) } else { format!("self.0.{}()", f.name) };
-            writeln!(s, "        {} => {{ {} }}", k, get_conv(l, &f.ty, &call)).unwrap();
+            // the getter's result is bound to the declared field type first ("presented as the declared field
+            // type"): a getter returning a wider or differently signed integer does not compile here
+            writeln!(s, "        {} => {{ let g: {} = {}; {} }}", k, getter_ty(l, &f.ty), call, get_conv(l, &f.ty, "g")).unwrap();
         }
     }
     writeln!(s, "        _ => panic!(\"ADAPTER-BUG: no getter for field {{}}\", f),").unwrap();
@@ -325,7 +327,7 @@ pub fn emit_enum_module(id: usize, e: &EnumDecl, consts: Option<&str>) -> String
         if v.cfg == Cfg::Never {
             continue;
         }
-        writeln!(s, "    {} => {},", k, from_base(e.bits, &format!("{}::{}.raw_value()", e.name, v.name))).unwrap();
+        writeln!(s, "    {} => {{ let r: u{} = {}::{}.raw_value(); {} }},", k, e.bits, e.name, v.name, from_base(e.bits, "r")).unwrap();
     }
     writeln!(s, "    _ => panic!(\"ADAPTER-BUG: no variant {{}}\", k),\n}} }}").unwrap();
     if let Some(c) = consts {
@@ -345,7 +347,7 @@ pub const REPO_MACRO: &str = "/repo/bitbybit";
 /// root of the framework tree the generated crates take `rt` and the lock file from: /verif, or a frozen copy of
 /// it (BBV_VERIF_ROOT) when seeded changes are evaluated against the framework as it stood at an earlier commit
 pub fn verif_root() -> String {
-    std::env::var("BBV_VERIF_ROOT").unwrap_or_else(|_| "/verif".to_string())
+    std::env::var("BBV_VERIF_ROOT").unwrap_or_else(|_| crate::common::verif())
 }
 
 fn macro_path() -> String {
